@@ -295,6 +295,7 @@ where
         }
     }
     let mut publisher = Some(pb.open().await?);
+    let mut dup = None;
     let mut sent: Vec<Item> = vec![];
     // Every fifth case: a foreign publisher sends one payload that is not valid for the subscriber's
     // codec.  The subscriber must report exactly one error for it, and nothing that follows may be
@@ -382,6 +383,20 @@ where
         if elapses && !slow_feeds {
             tokio::time::sleep(Duration::from_millis(4)).await;
         }
+        // Every third case: half-way through (with batching: while the batch may be partly filled) the handle is
+        // duplicated.  The duplicate is a handle of its own with nothing to send; what the original accepted
+        // arrives once.  (`duplicate(&self)` is not `Send`: driven to completion on this thread.)
+        if run % 3 == 1 && !burst && opi == ops.len() / 2 && opi > 0 && dup.is_none() {
+            if let Some(p) = publisher.as_ref() {
+                match tokio::task::block_in_place(|| tokio::runtime::Handle::current().block_on(p.duplicate())) {
+                    Ok(d) => {
+                        dup = Some(d);
+                        log.emit("duplicated", json!({"after_ops": opi}));
+                    }
+                    Err(e) => log.emit("harness_error", json!({"err": format!("duplicate: {e}")})),
+                }
+            }
+        }
         match op.as_str() {
             "send" | "feed" => {
                 let i = sent.len() as u64 + 1;
@@ -425,6 +440,11 @@ where
             "finish" => {
                 let r = publisher.take().unwrap().finish().await;
                 log.emit("pub_finish_ret", json!({"res": if r.is_ok() { "ok".to_string() } else { format!("err: {}", r.unwrap_err()) }}));
+                // a duplicate taken half-way (see below) never sent anything of its own: finishing it adds nothing
+                if let Some(d) = dup.take() {
+                    let r = d.finish().await;
+                    log.emit("dup_finish_ret", json!({"res": if r.is_ok() { "ok".to_string() } else { format!("err: {}", r.unwrap_err()) }}));
+                }
             }
             _ => {}
         }
